@@ -4,6 +4,9 @@ Simulated dimension: the model timestep IS the simulated clock and systems are p
 simulator advances the clock through the real scheduler (execute(n), bare execute_systems()), registers
 systems late (also after their start, on and off a firing instant) and compares every firing with a
 reference timer wheel; a twin model advanced strictly one step at a time must log the same."""
+import copy
+import gc
+
 import numpy
 
 from .common import MAXSIZE, Model, RefSched, gen_flavour, gen_prio, rec_class, spec_defaults
@@ -17,13 +20,13 @@ RULE = ("1-8 timer systems with start in [-12,50] or far future, end in {forever
         "injected; non-trivial = >=1 system with start != 0 and frequency > 1 fired >=2 times and >=1 system was "
         "registered after its start; distinct = multiset of (start, end-class, frequency, registration offset) plus "
         "the advance pattern"
-        "; also: removal and re-registration (other window, same id), systems registered by other systems from inside a step (also inside execute(n)), str-subclass ids, systems with value-based __eq__, falsy systems, window bounds given as numpy.int64, a system whose execute() lets an exception (incl. StopIteration) escape")
+        "; also: removal and re-registration (other window, same id), systems registered by other systems from inside a step (also inside execute(n)), str-subclass ids, systems with value-based __eq__, falsy systems, window bounds given as numpy.int64, a system whose execute() lets an exception (incl. StopIteration) escape, the run continued on a deep copy of the model after the source was completed / dropped")
 COMPONENTS = {"real": ["ECAgent.Core.SystemManager.execute_systems (activation predicate, clock)", "ECAgent.Core.Model.execute",
                        "Model.timestep forwarding"],
               "stub": ["System.execute bodies are harness recorders"]}
 PROBES = ["fired_at_end", "silent_after_end", "negative_start", "end_before_start", "late_registration_out_of_phase",
           "late_registration_in_phase", "bad_n_rejected", "freq_beyond_horizon", "bare_execute_systems", "reregistered_after_removal", "registered_from_inside_a_step",
-          "registered_inside_multi_step_request", "str_subclass_id", "numpy_int_window", "falsy_systems", "system_failure_reached_the_caller", "systems_returning_values_from_execute"]
+          "registered_inside_multi_step_request", "str_subclass_id", "numpy_int_window", "falsy_systems", "system_failure_reached_the_caller", "systems_returning_values_from_execute", "run_continued_on_a_deep_copy"]
 TECHNIQUE = "deterministic simulation: model clock stepped through the real scheduler vs a reference timer wheel and a single-stepped twin model"
 LEVEL_TEXT = ("Seeded search over timer windows, registration instants and advance patterns; every firing of every timestep is "
               "compared with the predicate start<=t<=end and (t-start)%f==0, the clock with the count of accepted steps, "
@@ -105,6 +108,8 @@ def generate(rng, tier):
             f = systems[by]["freq"]
             t = max(0, systems[by]["start"]) + f * rng.randint(0, max(1, horizon // (2 * f)))   # a firing instant of the spawner
             spawns.append({"by": by, "t": min(t, horizon - 1), "k": k})
+    if rng.random() < 0.12:
+        ops.insert(rng.randint(0, len(ops)), {"op": "branch", "then": rng.choice(["complete_source", "complete_source", "collect_source", "nothing"])})
     raises = None
     if rng.random() < 0.08:
         # one system's execute() lets an exception escape at some timestep (a bare next() on an exhausted iterator, a
@@ -307,6 +312,18 @@ def execute(sc, ctx):
             ctx.probe("bare_execute_systems")
             if advance(1, "bare"):
                 break
+        elif kind == "branch":
+            # checkpoint / branch: the run continues on a deep copy of the model (systems and their log travel along); the
+            # source model is completed (or dropped) afterwards - the copy is a running model of its own
+            src = m
+            m, w = copy.deepcopy((m, w))
+            if op.get("then") == "complete_source":
+                src.complete()
+            del src
+            if op.get("then") == "collect_source":
+                gc.collect()
+            ctx.fault("restart.continue_on_copy")
+            ctx.probe("run_continued_on_a_deep_copy")
         elif kind == "bad":
             v, exc = BAD[op["v"]] if op["v"] in BAD else BAD["zero"]
             before = len(w.log)
